@@ -60,3 +60,8 @@ package contracts
 //@   ensures 0 <= result && result <= 32 && (result == 0 <==> x == 0)
 //@   ensures result < 32 ==> x >> uint32(result) == 0
 //@   ensures x != 0 ==> (x >> uint32(result - 1)) & 1 == 1
+
+//@ func strings.HasPrefix
+//@   trusted documented behaviour of strings.HasPrefix
+//@   pure
+//@   ensures result <==> (len(s) >= len(prefix) && forall k in 0..len(prefix) :: s[k] == prefix[k])
